@@ -979,6 +979,20 @@ pub fn conc_case_strategy(profile: ConcProfile, thorough: bool) -> BoxedStrategy
                 }
             }
         }
+        if profile == ConcProfile::General {
+            // the highest key of the range is private to each thread: sole-writer keys amid shared traffic (judged by
+            // check_sole_writer_final when the cache is roomy)
+            for (thread, ops) in threads.iter_mut().enumerate() {
+                let private = |k: u8| if k == max_key - 1 { 200 + thread as u8 } else { k };
+                for op in ops.iter_mut() {
+                    match op {
+                        COp::Put { k, .. } | COp::Upsert { k, .. } | COp::Delete { k, .. } | COp::HoldRef { k, .. } => *k = private(*k),
+                        COp::Read { keys, .. } => for k in keys.iter_mut() { *k = private(*k); },
+                        _ => {}
+                    }
+                }
+            }
+        }
         ConcCase { cfg, threads, injection, clock, monitor: profile != ConcProfile::Reads, consumer, sched: None }
     }).boxed()
 }
